@@ -342,10 +342,10 @@ theorem fixed_clobber_example :
 /-- was `compose-broken:versionless-document`: with `ms = [{"a": FunctionCall(add_one)}]`, `d = {"a": 1}` the
     two-stage and the one-stage result are both `{"a": 2, "version": 2}` -/
 theorem fixed_compose_versionless_example :
-    (match convertDict (.obj [("a", .int 1)]) ([[("a", .fn .addOne [])]].take 1) with
-      | .ok d1 => sameResult (convertDict d1 [[("a", .fn .addOne [])]])
+    (match convertDict (.obj [("a", .int 1)]) ([[("a", .fn (applyFn .addOne) [])]].take 1) with
+      | .ok d1 => sameResult (convertDict d1 [[("a", .fn (applyFn .addOne) [])]])
                     (.ok (.obj [("a", .int 2), ("version", .int 2)]))
-                  && sameResult (convertDict (.obj [("a", .int 1)]) [[("a", .fn .addOne [])]])
+                  && sameResult (convertDict (.obj [("a", .int 1)]) [[("a", .fn (applyFn .addOne) [])]])
                     (.ok (.obj [("a", .int 2), ("version", .int 2)]))
       | .error _ => false) = true := by
   decide
@@ -380,9 +380,9 @@ theorem beq_sound (a b : R Json) (h : sameResult a b = true) : a = b := sameResu
     with arguments, a dotted move and deletions -/
 def exHistory : List Mapping :=
   [ [("j", .const (.int 100)),
-     ("items", .sub [("n", .fn .addOne []), ("tag", .const (.str "t"))])],
-    [("bar", .move ["old", "inner"]), ("old", .deleted), ("w", .fn .pair ["i", "j"])],
-    [("first", .move ["items", "n"]), ("i", .fn .wrap ["i"])] ]
+     ("items", .sub [("n", .fn (applyFn .addOne) []), ("tag", .const (.str "t"))])],
+    [("bar", .move ["old", "inner"]), ("old", .deleted), ("w", .fn (applyFn .pair) ["i", "j"])],
+    [("first", .move ["items", "n"]), ("i", .fn (applyFn .wrap) ["i"])] ]
 
 def exDoc : Json :=
   .obj [("version", .int 1), ("i", .int 2),
